@@ -14,12 +14,22 @@ SPEC = os.path.join(VERIF, 'spec')
 JAR_CP = '/opt/veriftools/tla/tla2tools.jar:/opt/veriftools/tla/CommunityModules-deps.jar'
 
 
+def _die_with_parent():
+    """ the JVM must not outlive the check that started it """
+    try:
+        import ctypes
+        import signal
+        ctypes.CDLL('libc.so.6').prctl(1, signal.SIGKILL)
+    except Exception:
+        pass
+
+
 class TLCFailure(Exception):
     """ TLC could not complete (machinery failure, exit 2 -- never a verdict). """
 
 
 def _java(extra_props=()):
-    return ['java', '-XX:+UseParallelGC', '-Xss16m'] + list(extra_props) + ['-cp', JAR_CP, 'tlc2.TLC']
+    return ['java', '-Xss16m'] + list(extra_props) + ['-cp', JAR_CP, 'tlc2.TLC']
 
 
 def run_tlc(module, cfg_text, env=None, workers=16, args=(), timeout=1800, xmx=None, keep=False):
@@ -30,7 +40,7 @@ def run_tlc(module, cfg_text, env=None, workers=16, args=(), timeout=1800, xmx=N
         cfg = os.path.join(tmp, module + '.cfg')
         with open(cfg, 'w') as f:
             f.write(cfg_text)
-        props = []
+        props = ['-XX:+UseParallelGC'] if workers > 2 else ['-XX:+UseSerialGC']
         if xmx:
             props.append('-Xmx' + xmx)
         cmd = _java(props) + ['-workers', str(workers), '-metadir', os.path.join(tmp, 'meta'), '-noGenerateSpecTE',
@@ -39,12 +49,23 @@ def run_tlc(module, cfg_text, env=None, workers=16, args=(), timeout=1800, xmx=N
         if env:
             e.update(env)
         t0 = time.time()
+        proc = subprocess.Popen(cmd, cwd=SPEC, env=e, stdout=subprocess.PIPE, stderr=subprocess.STDOUT, text=True,
+                                preexec_fn=_die_with_parent)
         try:
-            p = subprocess.run(cmd, cwd=SPEC, env=e, capture_output=True, text=True, timeout=timeout)
+            so, _ = proc.communicate(timeout=timeout)
         except subprocess.TimeoutExpired as ex:
-            subprocess.run(['pkill', '-f', tmp], check=False)
+            proc.kill()
+            proc.communicate()
             raise TLCFailure(f'TLC timeout after {timeout}s on {module}') from ex
-        out = p.stdout + p.stderr
+        except BaseException:
+            proc.kill()
+            raise
+
+        class _P:
+            pass
+        p = _P()
+        p.returncode = proc.returncode
+        out = so
         res = {'out': out, 'rc': p.returncode, 'wall_s': time.time() - t0, 'cmd': ' '.join(cmd[:3] + ['...'] + cmd[-8:])}
         m = re.search(r'(\d+) states generated, (\d+) distinct states found', out)
         res['generated'] = int(m.group(1)) if m else 0
@@ -188,7 +209,7 @@ def parse_value(txt):
     return val()
 
 
-TRACE_CFG = 'SPECIFICATION Spec\nCHECK_DEADLOCK FALSE\n'
+TRACE_CFG = 'SPECIFICATION Spec\nVIEW View\nCHECK_DEADLOCK FALSE\n'
 
 
 def validate_traces(traces, module='TraceChunk', shards=None, timeout=1800, extra_env=None):
